@@ -117,7 +117,7 @@ func (c *ScriptConn) Read(b []byte) (int, error) {
 			c.closed = true
 			return 0, net.ErrClosed
 		}
-		c.Trace = append(c.Trace, fmt.Sprintf("read(%d)=%s", len(b), c.ending))
+		c.Trace = append(c.Trace, fmt.Sprintf("re:%d", len(b)))
 		switch c.ending {
 		case "eof":
 			return 0, io.EOF
@@ -136,7 +136,7 @@ func (c *ScriptConn) Read(b []byte) (int, error) {
 		c.chunks[0] = ch[n:]
 	}
 	c.Consumed += n
-	c.Trace = append(c.Trace, fmt.Sprintf("read(%d)=%d", len(b), n))
+	c.Trace = append(c.Trace, fmt.Sprintf("r:%d:%d", len(b), n))
 	return n, nil
 }
 
@@ -154,7 +154,7 @@ func (c *ScriptConn) Write(b []byte) (int, error) {
 	}
 	cp := append([]byte(nil), b...)
 	c.Written = append(c.Written, cp)
-	c.Trace = append(c.Trace, fmt.Sprintf("write(%d)", len(b)))
+	c.Trace = append(c.Trace, fmt.Sprintf("w:%d", len(b)))
 	f := c.OnWrite
 	c.mu.Unlock()
 	if f != nil {
@@ -184,7 +184,7 @@ func (c *ScriptConn) SetDeadline(t time.Time) error {
 	c.mu.Lock()
 	defer c.mu.Unlock()
 	c.Deadlines++
-	c.Trace = append(c.Trace, "setdeadline")
+	c.Trace = append(c.Trace, fmt.Sprintf("sd:%d", int64(time.Until(t))))
 	return nil
 }
 func (c *ScriptConn) SetReadDeadline(t time.Time) error  { return c.SetDeadline(t) }
